@@ -61,7 +61,11 @@ def scope_cases(ctx):
         out.append({"op": "naming.scopes", "in": {"kind": "props", "spec": spec_with({"Root": {"type": "object", "properties": props}}), "cfg": {"all_schemas": True}, "mode": "client-mod", "expect_fields": {"Root": len(props)}}})
         for mode in ("merge", "preserve"):
             out.append({"op": "naming.scopes", "in": {"kind": "enum-" + mode, "spec": spec_with({"Root": {"type": "object", "properties": {"k": {"$ref": "#/components/schemas/E"}}}, "E": {"type": "string", "enum": names}}), "cfg": {"all_schemas": True, "enum_mode": mode}, "mode": "client-mod"}})
-    for labels in LABELS:
+    # every list of up to 3 (thorough: 4) titles over {Foo, Foo2, Foo3}: a suffixed name may already be taken BEFORE the
+    # plain name repeats (`Foo2, Foo, Foo`), which a per-base counter gets wrong and probing the used set gets right
+    import itertools
+    small = [list(t) for n in ((2, 3) if ctx.quick else (2, 3, 4)) for t in itertools.product(["Foo", "Foo2", "Foo3"], repeat=n)]
+    for labels in LABELS + small:
         members = [{"type": "object", "title": t, "properties": {"p%d" % i: {"type": "string"}}} for i, t in enumerate(labels)]
         for kw in ("oneOf", "anyOf"):
             out.append({"op": "naming.scopes", "in": {"kind": "union-labels", "spec": spec_with({"Root": {kw: members}}), "cfg": {"all_schemas": True}, "mode": "client-mod", "expect_variants": {"Root": len(labels)}}})
